@@ -83,7 +83,7 @@ fn prop_cfg(id: &str, thorough: bool) -> Option<PropCfg> {
         },
         "C05" => PropCfg {
             id: "C05",
-            modes: vec![General, AssetStack, Flipper, Faulty, RoyaltyStack, BadInput],
+            modes: vec![General, AssetStack, Flipper, Faulty, RoyaltyStack, BadInput, CycleHeavy],
             probe: None,
             faultenum: false,
             attach: false,
@@ -106,7 +106,7 @@ fn prop_cfg(id: &str, thorough: bool) -> Option<PropCfg> {
         },
         "C07" => PropCfg {
             id: "C07",
-            modes: vec![General, Flipper, Faulty, ExpiryRace, RoyaltyStack, AssetStack],
+            modes: vec![General, Flipper, Faulty, ExpiryRace, RoyaltyStack, AssetStack, CycleHeavy],
             probe: Some(("drain", 1, if t { 2 } else { 5 })),
             faultenum: false,
             attach: false,
@@ -260,6 +260,19 @@ fn main() {
         Some("hashes") => cmd_hashes(&args),
         Some("trace") => cmd_trace(&args),
         Some("survey") => cmd_survey(&args),
+        Some("props") => {
+            for id in ["C01", "C02", "C03", "C04", "C05", "C06", "C07", "C08", "C09", "C10", "C11", "C12", "C13", "C14", "C15", "C16", "C18", "C19"] {
+                let q = prop_cfg(id, false).unwrap();
+                let t = prop_cfg(id, true).unwrap();
+                let mut modes: Vec<String> = q.modes.iter().map(|m| format!("{:?}", m)).collect();
+                modes.dedup();
+                modes.sort();
+                modes.dedup();
+                let probe = |c: &PropCfg| c.probe.map(|(k, n, d)| format!("{k} after {n}/{d} of steps")).unwrap_or_else(|| if c.faultenum { "fault enumeration around every dispatching tx".into() } else { "—".into() });
+                println!("| {id} | {} | {} / {} | {} | {} | {} |", modes.join(", "), q.runs, t.runs, q.max_steps, probe(&q), probe(&t));
+            }
+            0
+        }
         #[cfg(feature = "fidelity")]
         Some("fidelity") => fidelity::run(seed_from_env(), args.get(2).and_then(|s| s.parse().ok()).unwrap_or(300)),
         _ => {
